@@ -16,16 +16,18 @@ inductive FEx
   | a | b | c | S
   | add (x y : FEx) | sub (x y : FEx) | mul (x y : FEx) | floordiv (x y : FEx) | mod (x y : FEx)
   | upAdj (q rem : FEx)          -- `q`, plus 1 `if rem and round == 'up'`
+  | ifGuard (x y : FEx)          -- `x if cls.guard else y` (as statement branches)
 deriving DecidableEq, Repr
 
-def FEx.eval (va vb vc vS : Int) (up : Bool) : FEx → Int
+def FEx.eval (va vb vc vS : Int) (up : Bool) (guard : Bool := false) : FEx → Int
   | .a => va | .b => vb | .c => vc | .S => vS
-  | .add x y => x.eval va vb vc vS up + y.eval va vb vc vS up
-  | .sub x y => x.eval va vb vc vS up - y.eval va vb vc vS up
-  | .mul x y => x.eval va vb vc vS up * y.eval va vb vc vS up
-  | .floordiv x y => pdiv (x.eval va vb vc vS up) (y.eval va vb vc vS up)
-  | .mod x y => pmod (x.eval va vb vc vS up) (y.eval va vb vc vS up)
-  | .upAdj q r => q.eval va vb vc vS up + (if up && r.eval va vb vc vS up != 0 then 1 else 0)
+  | .add x y => x.eval va vb vc vS up guard + y.eval va vb vc vS up guard
+  | .sub x y => x.eval va vb vc vS up guard - y.eval va vb vc vS up guard
+  | .mul x y => x.eval va vb vc vS up guard * y.eval va vb vc vS up guard
+  | .floordiv x y => pdiv (x.eval va vb vc vS up guard) (y.eval va vb vc vS up guard)
+  | .mod x y => pmod (x.eval va vb vc vS up guard) (y.eval va vb vc vS up guard)
+  | .upAdj q r => q.eval va vb vc vS up guard + (if up && r.eval va vb vc vS up guard != 0 then 1 else 0)
+  | .ifGuard x y => if guard then x.eval va vb vc vS up guard else y.eval va vb vc vS up guard
 
 def addProg : FEx := .add .b .a                               -- `v = Fixed(other); v._value += self._value`
 def subProg : FEx := .sub .a .b
@@ -77,6 +79,64 @@ theorem fixed_muldiv_is_program (p : Nat) (r : Round) (x y z : Int) (hz : z ≠ 
     (fixedArith p).muldiv r x y z = muldivProg.eval x y z (pow10 p) (isUp r) := by
   show divmodRound r (x * y) z = _
   rw [divmodRound_eq r _ _ hz]
+  rfl
+
+/-! ## Guarded (values/guarded.py): the same formulas at scale 10^(p+g); `round` is consulted only when there are no guard digits -/
+
+def gAddProg : FEx := .add .a .b                              -- `Guarded(self._value + v._value, True)`
+def gSubProg : FEx := .sub .a .b
+def gMulOpProg : FEx := .floordiv (.mul .a .b) .S
+def gDivOpProg : FEx := .floordiv (.mul .a .S) .b
+def gMulProg : FEx := .ifGuard (.floordiv (.mul .a .b) .S) (.upAdj (.floordiv (.mul .a .b) .S) (.mod (.mul .a .b) .S))
+def gDivProg : FEx := .ifGuard (.floordiv (.mul .a .S) .b) (.upAdj (.floordiv (.mul .a .S) .b) (.mod (.mul .a .S) .b))
+def gMuldivProg : FEx := .ifGuard (.floordiv (.mul .a .b) .c) (.upAdj (.floordiv (.mul .a .b) .c) (.mod (.mul .a .b) .c))
+
+theorem guarded_add_is_program (p g : Nat) (x y : Int) :
+    (guardedArith p g).add x y = gAddProg.eval x y 0 (pow10 (p + g)) false (g != 0) := rfl
+
+theorem guarded_sub_is_program (p g : Nat) (x y : Int) :
+    (guardedArith p g).sub x y = gSubProg.eval x y 0 (pow10 (p + g)) false (g != 0) := rfl
+
+theorem guarded_mulV_is_program (p g : Nat) (x y : Int) :
+    (guardedArith p g).mulV x y = gMulOpProg.eval x y 0 (pow10 (p + g)) false (g != 0) := rfl
+
+theorem guarded_divV_is_program (p g : Nat) (x y : Int) (hy : y ≠ 0) :
+    (guardedArith p g).divV x y = gDivOpProg.eval x y 0 (pow10 (p + g)) false (g != 0) := by
+  show (if (y == 0) = true then 0 else pdiv (x * pow10 (p + g)) y) = pdiv (x * pow10 (p + g)) y
+  have : ¬ ((y == 0) = true) := by simpa using hy
+  rw [if_neg this]
+
+theorem guarded_round (g : Nat) (r : Round) (n d : Int) (hd : d ≠ 0) :
+    divmodRound (if g == 0 then r else Round.down) n d
+      = if (g != 0) = true then pdiv n d else pdiv n d + (if isUp r && pmod n d != 0 then 1 else 0) := by
+  by_cases hg : g = 0
+  · subst hg
+    simp only [beq_self_eq_true, if_true, bne_self_eq_false, Bool.false_eq_true, if_false]
+    exact divmodRound_eq r n d hd
+  · have h1 : (g == 0) = false := by simpa using hg
+    have h2 : (g != 0) = true := by simpa using hg
+    rw [h1, h2]
+    simp only [Bool.false_eq_true, if_false, if_true]
+    rw [divmodRound_eq _ n d hd]
+    simp [isUp]
+
+theorem guarded_mul_is_program (p g : Nat) (r : Round) (x y : Int) :
+    (guardedArith p g).mul r x y = gMulProg.eval x y 0 (pow10 (p + g)) (isUp r) (g != 0) := by
+  have hS : pow10 (p + g) ≠ 0 := ne_of_gt (pow10_pos (p + g))
+  show divmodRound (if g == 0 then r else Round.down) (x * y) (pow10 (p + g)) = _
+  rw [guarded_round g r _ _ hS]
+  rfl
+
+theorem guarded_div_is_program (p g : Nat) (r : Round) (x y : Int) (hy : y ≠ 0) :
+    (guardedArith p g).div r x y = gDivProg.eval x y 0 (pow10 (p + g)) (isUp r) (g != 0) := by
+  show divmodRound (if g == 0 then r else Round.down) (x * pow10 (p + g)) y = _
+  rw [guarded_round g r _ _ hy]
+  rfl
+
+theorem guarded_muldiv_is_program (p g : Nat) (r : Round) (x y z : Int) (hz : z ≠ 0) :
+    (guardedArith p g).muldiv r x y z = gMuldivProg.eval x y z (pow10 (p + g)) (isUp r) (g != 0) := by
+  show divmodRound (if g == 0 then r else Round.down) (x * y) z = _
+  rw [guarded_round g r _ _ hz]
   rfl
 
 end Droop.C12
